@@ -3,7 +3,26 @@ package main
 import (
 	"sort"
 	"strings"
+	"sync"
+
+	"verifh/ev"
 )
+
+// sampler hands at most max samples of one sub-check to the run.
+type sampler struct {
+	mu  sync.Mutex
+	n   int
+	max int
+}
+
+func (s *sampler) add(r *ev.Run, x any) {
+	s.mu.Lock()
+	defer s.mu.Unlock()
+	if s.n < s.max {
+		s.n++
+		r.Sample(x)
+	}
+}
 
 // universe is the set of registered prefixes / trie keys of DESIGN section 3
 // C19. "ab" is a string- but not a component-prefix extension of "a".
